@@ -201,6 +201,62 @@ pub fn check_state(case: &StCase, obs: &mut Obs) -> CheckResult {
     Ok(())
 }
 
+// ------------------------------------------------------------ steady regimes
+
+/// Long steady regimes: a block repeats one (RTT, loss permille, measured rate) setting for up to 90 one-second
+/// ticks - loss averages parked exactly on 0.25 / 0.55, measured rates around and far above the 200 Mbit/s ceiling.
+#[derive(Debug, Clone, Hash, Serialize, Deserialize)]
+pub struct RgCase {
+    pub blocks: Vec<(u8, u16, u16, u8)>, // repeats, rtt ms, lost per 1000 sent, measured-rate selector
+}
+
+const RATES: &[u64] = &[0, 90_000, 2_000_000, 50_000_000, 199_000_000, 200_000_000, 201_000_000, 300_000_000, 1_000_000_000, 4_000_000_000];
+
+fn rg_strategy() -> impl Strategy<Value = RgCase> {
+    let lost = prop_oneof![4 => Just(0u16), 1 => Just(249u16), 2 => Just(250), 1 => Just(251), 1 => Just(549), 3 => Just(550), 1 => Just(551), 1 => Just(600), 1 => Just(1000), 2 => 0u16..1000];
+    vec((prop_oneof![1u8..8, 4u8..12, 60u8..90], prop_oneof![Just(20u16), Just(20), Just(40), 5u16..400], lost, 0u8..RATES.len() as u8), 1..5).prop_map(|blocks| RgCase { blocks })
+}
+
+pub fn check_regimes(case: &RgCase, obs: &mut Obs) -> CheckResult {
+    let mut st = LinkCongestionState::default();
+    let mut m = Mon::default();
+    let mut now = T0;
+    let mut i = 0usize;
+    let mut top = 0u64;
+    for (rep, rtt, lost_pm, rate) in &case.blocks {
+        let observed = RATES[*rate as usize % RATES.len()];
+        for _ in 0..*rep {
+            now += 1000;
+            st.record_rtt(*rtt as f64, now);
+            m.rtt_fed = true;
+            st.record_loss(1000, *lost_pm as u32, now);
+            if *lost_pm > 0 {
+                m.last_loss_fed = Some(now);
+            }
+            st.tick(observed, now);
+            let s = st.snapshot();
+            top = top.max(s.target_bps);
+            if s.loss_ewma == 0.55 || s.loss_ewma == 0.25 {
+                obs.class("loss-average-exactly-on-a-threshold");
+            }
+            monitor(&mut m, &s, observed, now, &format!("tick {i}"))?;
+            i += 1;
+        }
+    }
+    if top >= 150_000_000 {
+        obs.class("target-above-150M");
+    }
+    if top == CEIL {
+        obs.class("target-at-the-200M-ceiling");
+    }
+    finish(obs, &[m]);
+    obs.nontrivial |= obs.classes.iter().any(|c| c == "loss-average-exactly-on-a-threshold" || c == "target-above-150M");
+    if obs.nontrivial {
+        obs.sample = Some(json!({"blocks": format!("{:?}", case.blocks), "top_target": top}));
+    }
+    Ok(())
+}
+
 fn finish(obs: &mut Obs, mons: &[Mon]) {
     for m in mons {
         let nst = m.states.len();
@@ -359,7 +415,9 @@ pub fn run(ctx: &Ctx) -> &'static str {
     ctx.assume("+-1 bit/s slack for the code's float-to-integer truncation; the loss average is the one the snapshot exports");
     ctx.assume("a link absent from a tick is a new link when it re-appears (the controller garbage-collects it)");
     for (file, body) in ctx.replay_files() {
-        let done = ctx.replay_case::<StCase, _>("state", &file, &body, check_state) || ctx.replay_case::<CtlCase, _>("controller", &file, &body, check_ctl);
+        let done = ctx.replay_case::<StCase, _>("state", &file, &body, check_state)
+            || ctx.replay_case::<CtlCase, _>("controller", &file, &body, check_ctl)
+            || ctx.replay_case::<RgCase, _>("steady-regimes", &file, &body, check_regimes);
         if !done {
             eprintln!("replay {}: unknown part", file.display());
         }
@@ -381,6 +439,13 @@ pub fn run(ctx: &Ctx) -> &'static str {
         ctx.tier.pick(30_000, 400_000),
         || ctl_strategy(mt),
         |_| check_ctl,
+    );
+    ctx.explore(
+        "steady-regimes",
+        "1..4 blocks of up to 90 one-second ticks with one (RTT, loss per 1000 sent, measured rate) setting each: loss 249/250/251 and 549/550/551 permille held for seconds (averages parked exactly on the clear / latch thresholds), measured rates 0 .. 4 Gbit/s incl. 199/200/201/300 Mbit/s held long enough for the target to climb to the ceiling; same monitor; non-trivial = the average sat exactly on a threshold or the target passed 150 Mbit/s",
+        ctx.tier.pick(20_000, 300_000),
+        rg_strategy,
+        |_| check_regimes,
     );
     "exploration"
 }
